@@ -100,10 +100,11 @@ def replay_states(states, seed, judge_name, tier):
                 txns = [EC.txn(t, v) for t in txns_abs]
                 exps = [expected_for(f, o) for o in res]
                 obs = {}
-                try:
-                    obs['engine'] = observe_engine(text, mode, txns)
-                except Exception as e:
-                    obs['engine'] = 'EXC:' + repr(e)
+                if not v.xform:          # (MerchantEngine.match does not apply field transforms: that is normalize_merchant's job)
+                    try:
+                        obs['engine'] = observe_engine(text, mode, txns)
+                    except Exception as e:
+                        obs['engine'] = 'EXC:' + repr(e)
                 path = os.path.join(tmpdir, 'm.rules')
                 with open(path, 'w', newline='') as fh:
                     fh.write(text)
@@ -111,7 +112,7 @@ def replay_states(states, seed, judge_name, tier):
                     obs['normalize'] = observe_normalize(path, mode, txns)
                 except Exception as e:
                     obs['normalize'] = 'EXC:' + repr(e)
-                if mode == 'first_match' and EC.csv_expressible(f) and not v.neg_amount:
+                if mode == 'first_match' and EC.csv_expressible(f) and not v.neg_amount and not v.xform:
                     cpath = os.path.join(tmpdir, 'm.csv')
                     cv = EC.Variant(canonical=True)
                     cv.a1 = v.a1 if vi else 0        # the pattern spelling varies, the transaction stays canonical-compatible
@@ -130,7 +131,7 @@ def replay_states(states, seed, judge_name, tier):
                         fails.append(x)
                 if sample is None and len(f['rules']) >= 2:
                     sample = {'rules_text': text, 'txn': dict(txns[0], date=str(txns[0]['date'])), 'spec': exps[0],
-                              'engine': obs['engine'][0] if isinstance(obs['engine'], list) else obs['engine']}
+                              'engine': obs['engine'][0] if isinstance(obs.get('engine'), list) else obs.get('engine')}
     finally:
         import shutil
         shutil.rmtree(tmpdir, ignore_errors=True)
